@@ -51,3 +51,50 @@ package appdb
 //@   ensures loaded: old(appDB.lastHeight) == 0 && len(disk(appDB.db, "height")) == 8 ==> result == be64dec(disk(appDB.db, "height"))
 //@   ensures absent: old(appDB.lastHeight) == 0 && len(disk(appDB.db, "height")) == 0 ==> result == 0
 //@   modifies appDB.lastHeight
+
+//@ # dirty-flag discipline of the remaining cached records: a setter marks its record dirty, Save* writes what is
+//@ # dirty (and nothing when clean)
+//@ func (*AppDB).AddVersion
+//@   serves C09
+//@   requires appDB != nil
+//@   ensures dirty: appDB.isDirtyVersions
+//@   ensures appended: len(appDB.versions) >= 1 && appDB.versions[len(appDB.versions) - 1] != nil && appDB.versions[len(appDB.versions) - 1].Name == v && appDB.versions[len(appDB.versions) - 1].Height == height
+
+//@ func (*AppDB).SaveVersions
+//@   serves C09
+//@   requires appDB != nil
+//@   ensures clean: !appDB.isDirtyVersions
+//@   ensures untouched: !old(appDB.isDirtyVersions) ==> disk(appDB.db, "versions") == old(disk(appDB.db, "versions"))
+//@   modifies appDB.isDirtyVersions, disk(appDB.db, "versions")
+
+//@ func (*AppDB).SetPrice
+//@   serves C09 C28
+//@   requires appDB != nil && r0 != nil && r1 != nil && lastReward != nil
+//@   ensures dirty: appDB.isDirtyPrice
+//@   ensures stored: appDB.price != nil && appDB.price.R0 != nil && appDB.price.R1 != nil && appDB.price.Last != nil && appDB.price.R0.val == old(r0.val) && appDB.price.R1.val == old(r1.val) && appDB.price.Last.val == old(lastReward.val) && appDB.price.Off == off
+//@   ensures copies: fresh(appDB.price) && fresh(appDB.price.R0) && fresh(appDB.price.R1) && fresh(appDB.price.Last)
+//@   modifies appDB.price, appDB.isDirtyPrice
+
+//@ func (*AppDB).SetValidators
+//@   serves C09
+//@   requires appDB != nil
+//@   ensures appDB.validators == vals
+//@   modifies appDB.validators
+
+//@ func (*AppDB).SetStartHeight
+//@   serves C09
+//@   requires appDB != nil
+//@   ensures appDB.startHeight == height
+//@   modifies appDB.startHeight
+
+//@ func (*AppDB).SaveStartHeight
+//@   serves C09
+//@   requires appDB != nil
+//@   ensures written: disk(appDB.db, "startHeight") == be64enc(appDB.startHeight)
+//@   modifies disk(appDB.db, "startHeight")
+
+//@ # ASSUMED (the body decodes JSON through a pointer into the struct): loads the cache if empty, returns it
+//@ func (*AppDB).GetVersions
+//@   trusted
+//@   ensures result == appDB.versions
+//@   modifies appDB.versions
